@@ -764,6 +764,8 @@ impl Gen {
                     names::SIG_EX,
                     names::DOCSUMMARY,
                     "_StringPool",
+                    "MsiDigitalSignature.Cert1",
+                    "MsiDigitalCertificate.Thumb",
                     "_Tables",
                     "\u{4840}_Tables",
                     "..",
@@ -902,6 +904,13 @@ impl Gen {
                 }
             }
         }
+        if self.rng.chance(12) && !s.is_empty() {
+            // U+0000 is a character like any other to the setters
+            let at = self.rng.usize_below(s.chars().count() + 1);
+            let mut cs: Vec<char> = s.chars().collect();
+            cs.insert(at, '\u{0}');
+            s = cs.into_iter().collect();
+        }
         s
     }
 
@@ -945,7 +954,7 @@ impl Gen {
             _ => *self.rng.pick(&[CloseMode::IntoInner, CloseMode::Drop, CloseMode::FlushDrop, CloseMode::FlushCrash]),
         };
         let mut edits = Vec::new();
-        if matches!(self.profile, Profile::Streams | Profile::Foreign | Profile::ReadOnly) && self.rng.chance(150) {
+        if matches!(self.profile, Profile::Streams | Profile::Foreign | Profile::ReadOnly | Profile::Reject) && self.rng.chance(150) {
             edits.push(Edit::AddSignature(self.rng.chance(500)));
             self.model.sig = true;
         }
@@ -1437,7 +1446,11 @@ impl Gen {
 fn swarm_weights(p: Profile, rng: &mut Prng) -> [u32; NKINDS] {
     let mut w = [0u32; NKINDS];
     let base: [(usize, u32); 16] = match p {
-        Profile::Clean | Profile::Benign | Profile::Crash | Profile::Foreign | Profile::Script | Profile::Corrupt | Profile::Limits | Profile::ReadOnly => [
+        Profile::Foreign => [
+            (K_CREATE, 10), (K_DROP, 4), (K_INSERT, 22), (K_UPDATE, 12), (K_DELETE, 10), (K_SELECT, 8), (K_WSTREAM, 6), (K_RSTREAM, 2),
+            (K_RMSTREAM, 2), (K_SUMMARY, 6), (K_DBCP, 2), (K_FLUSH, 4), (K_RESTART, 8), (K_RMSIG, 1), (K_INVALID, 6), (K_OBSERVE, 3),
+        ],
+        Profile::Clean | Profile::Benign | Profile::Crash | Profile::Script | Profile::Corrupt | Profile::Limits | Profile::ReadOnly => [
             (K_CREATE, 10), (K_DROP, 4), (K_INSERT, 22), (K_UPDATE, 12), (K_DELETE, 10), (K_SELECT, 8), (K_WSTREAM, 6), (K_RSTREAM, 2),
             (K_RMSTREAM, 2), (K_SUMMARY, 6), (K_DBCP, 2), (K_FLUSH, 4), (K_RESTART, 8), (K_RMSIG, 1), (K_INVALID, 0), (K_OBSERVE, 3),
         ],
@@ -1478,6 +1491,12 @@ fn swarm_weights(p: Profile, rng: &mut Prng) -> [u32; NKINDS] {
 }
 
 pub fn gen_foreign_spec(rng: &mut Prng, big: bool) -> ForeignSpec {
+    gen_foreign_spec_ext(rng, big, false)
+}
+
+/// `wide_ok`: tables of more than 32 columns may be declared (nothing stops a
+/// file from doing so; only create_table enforces the limit)
+pub fn gen_foreign_spec_ext(rng: &mut Prng, big: bool, wide_ok: bool) -> ForeignSpec {
     let cp = if rng.chance(150) { 0 } else if rng.chance(400) { 65001 } else { *rng.pick(&crate::cp::ALL_IDS) };
     let alphabet = if cp == 0 { Vec::new() } else { crate::cp::common_chars(&[cp]) };
     let mut g = Gen {
@@ -1505,6 +1524,14 @@ pub fn gen_foreign_spec(rng: &mut Prng, big: bool) -> ForeignSpec {
     for ti in 0..nt {
         let wide = rng.chance(100);
         let (name, mut cols) = g.gen_plain_table(if wide { 32 } else { 7 });
+        if wide_ok && rng.chance(150) {
+            let n = cols.len();
+            for k in 0..(33 + rng.usize_below(4)).saturating_sub(n) {
+                let mut c = ColSpec::new(&format!("W{}", n + k + 1), if k % 2 == 0 { CType::I16 } else { CType::Str(20) });
+                c.nullable = true;
+                cols.push(c);
+            }
+        }
         if big && ti == 0 && cols.len() < 32 {
             let mut c = ColSpec::new("BigS", CType::Str(72));
             c.nullable = true;
@@ -1689,7 +1716,7 @@ pub fn generate(property: &str, profile: Profile, seed: u64, run: u64) -> Trace 
     let ptype = *rng.pick(&[PType::Installer, PType::Installer, PType::Patch, PType::Transform]);
     let big_script = profile == Profile::Script && run % 6 == 4;
     let (init, model) = if profile == Profile::Foreign || (profile == Profile::Corrupt && rng.chance(300)) || (profile == Profile::ReadOnly && rng.chance(300)) || (profile == Profile::Reject && rng.chance(250)) || (profile == Profile::Schema && rng.chance(150)) || big_script {
-        let spec = gen_foreign_spec(&mut rng, big_script);
+        let spec = gen_foreign_spec_ext(&mut rng, big_script, profile == Profile::Corrupt);
         cp_set = vec![if spec.codepage == 0 { 65001 } else { spec.codepage }];
         alphabet = if spec.codepage == 0 { Vec::new() } else { crate::cp::common_chars(&cp_set) };
         // (UTF-8 represents whatever the image's own page does)
@@ -1794,7 +1821,8 @@ pub fn generate(property: &str, profile: Profile, seed: u64, run: u64) -> Trace 
         let restarts: Vec<u32> = g.ops.iter().filter(|o| matches!(o.op, Op::Restart { .. })).map(|o| o.id).collect();
         if restarts.len() >= 2 {
             let id = restarts[1 + g.rng.usize_below(restarts.len() - 1)];
-            faults.push(crate::disk::FaultSpec { op_id: id, kind: crate::disk::EvKind::Flush, nth: 0, persistent: false });
+            let kind = if g.rng.chance(600) { crate::disk::EvKind::Flush } else { crate::disk::EvKind::Read };
+            faults.push(crate::disk::FaultSpec { op_id: id, kind, nth: 0, persistent: false });
         }
     }
     Trace {
